@@ -11,7 +11,7 @@ for name in names:
     d = f"/verif/seeded/{name}"
     meta = json.load(open(f"{d}/meta.json"))
     props = [f"C{i:02d}" for i in range(1, 19)] if allp else sorted(set([meta["breaks_property"]] + meta.get("also_run", [])))
-    ev = subprocess.run(f"cd /verif && tools/seeded.py {d}/patch.diff --seed {seed} {' '.join(props)}", shell=True, capture_output=True, text=True)
+    ev = subprocess.run(f"cd /verif && tools/seeded.py --seed {seed} {d}/patch.diff {' '.join(props)}", shell=True, capture_output=True, text=True)
     m = re.search(r"CAUGHT-BY: (.*)", ev.stdout)
     caught = m.group(1).split() if m and m.group(1) != "none" else []
     if seed != "1":
